@@ -180,10 +180,54 @@ def run(tier):
                                                                                  else "the end value, zero derivative"))
                 else:
                     rep.fail("LINEAR-OUTSIDE@%s" % key, "linear interpolation (%s), %s of the table: %r instead of %r" % (mode, reg, v, wantv))
+    # ---- larger tables: the binary search of the spline and the index search of the linear interpolation on 12 nodes
+    NN = 12
+    xs12 = [V("x%d" % i) for i in range(NN)]
+    ys12 = [V("y%d" % i) for i in range(NN)]
+    ds12 = [V("d%d" % i) for i in range(NN)]
+    vs12 = [V("v%d" % i) for i in range(NN)]
+    base12 = {}
+    for i in range(NN):
+        base12["x%d" % i] = 10 * i
+        base12["y%d" % i] = 3 + 7 * i * i
+        base12["d%d" % i] = 2 + i
+        base12["v%d" % i] = 5 + 3 * i * i
+    for what, fname, ins, arg in (("spline", "verif_cs_vd_ext_n", [x] + [c for i in range(NN) for c in (xs12[i], ys12[i], ds12[i])], "x"),
+                                  ("linear interpolation", "verif_li_vd_ext_n", [a] + xs12 + vs12, "a")):
+        try:
+            pths = run_shim(mod, fname, [ins], [2], max_paths=400)
+        except Unsupported as e:
+            raise AnalysisBroken("%s: unsupported: %s" % (fname, e))
+        rep.count("shims interpreted")
+        rep.count("paths explored", len(pths))
+        for k in range(NN - 1):
+            env = dict(base12)
+            for q in (Fraction(10 * k) + Fraction(1, 3), Fraction(10 * k + 5), Fraction(10 * k + 10) - Fraction(1, 3)):
+                env[arg] = q
+                ok = [p_ for p_ in pths if feasible(p_[0], env)]
+                rep.count("interval queries on the 12-node tables")
+                if len(ok) != 1:
+                    raise AnalysisBroken("%s: %d feasible paths for a query in [x%d, x%d]" % (fname, len(ok), k, k + 1))
+                v, d = ok[0][1][0]
+                ya, yb = (ys12[k], ys12[k + 1]) if what == "spline" else (vs12[k], vs12[k + 1])
+                g0, g1 = v.subs(arg, xs12[k].n), v.subs(arg, xs12[k + 1].n)
+                good = g0.equals(ya) and g1.equals(yb) and d.equals(v.diff(arg))
+                if what == "spline":
+                    good = good and d.subs(arg, xs12[k].n).equals(ds12[k]) and d.subs(arg, xs12[k + 1].n).equals(ds12[k + 1])
+                else:
+                    good = good and v.diff(arg).diff(arg).is_zero()
+                if good:
+                    rep.ok("%s, 12 nodes: a query at %s in [x%d, x%d] is interpolated on that interval" % (what, q, k, k + 1), sample=(k == 5))
+                else:
+                    rep.fail("TABLE-SEARCH@%s#interval%d" % (what.replace(" ", "-"), k),
+                             "%s on a 12-node table: for a query at %s (nodes at 0, 10, ..., 110) the value returned takes %r at x%d and %r at x%d "
+                             "instead of the tabulated values: the query is evaluated on the wrong interval" % (what, q, g0, k, g1, k + 1))
+                    break
+    rep.floor("interval queries on the 12-node tables", 60)
     rep.floor("shims interpreted", 5)
     rep.floor("paths explored", 15)
-    rep.assumptions += ["exact real arithmetic; three nodes (the functions treat every interior interval alike through lower_bound / findIndex, whose "
-                        "loops are explored for this table size only)",
+    rep.assumptions += ["exact real arithmetic; tables of three nodes (all clauses) and of twelve nodes (interval selection by lower_bound / findIndex, "
+                        "node values, derivative); other table sizes are not explored",
                         "not decided: the stored derivatives (tridiagonal system, natural end conditions, continuity of the second derivative), "
                         "computeIntegral / computeMeanValue over several intervals, tables of run-time size, the std::vector-based class interface"]
     return rep
